@@ -1,6 +1,7 @@
 package rules
 
 import (
+	"regexp"
 	"fmt"
 	"go/ast"
 	"go/constant"
@@ -49,6 +50,50 @@ func runC01(p *core.Program, r *core.Report) {
 	// R6: "declares the target package's own name": the file is written into the directory of the package it was
 	// rendered for, which the writer takes from Package.SourceDir()
 	chainRules(p, r, "R6", "C13", []string{"C13.R6"}, "the directory a file is written to is the processed package's own")
+	c01R7(p, r)
+	// R8: "the declarations the generator rendered": each (package, generator) renders into its own context and file
+	chainRules(p, r, "R8", "C05", []string{"C05.R2", "C05.R3"}, "every generator of a package renders into a context and file of its own")
+}
+
+var loneImport = regexp.MustCompile(`(^|\n)\s*import\s+[^(\s]`)
+
+// c01R7: "a fixed point of gofmt and of gofumpt": the imports are written as ONE parenthesised declaration. That is the
+// form go/format sorts and gofumpt groups; a lone `import x "p"` line can be joined by gofumpt with an adjacent lone
+// import a generator rendered, into a declaration neither tool sorts afterwards - the written file is then not a fixed
+// point. The import printer emits no constant that spells an import spec outside the block.
+func c01R7(p *core.Program, r *core.Report) {
+	const rule = "R7"
+	r.Floor(rule, 1)
+	ip := importPrinter(p)
+	if ip == nil {
+		r.Anchor(rule, "the import printer of pkg/gengo (the function that emits `import (`)")
+		return
+	}
+	info := ip.Info()
+	bad := ""
+	n := 0
+	ast.Inspect(ip.Body, func(m ast.Node) bool {
+		e, ok := m.(ast.Expr)
+		if !ok {
+			return true
+		}
+		if _, isLit := e.(*ast.BasicLit); !isLit {
+			if _, isID := e.(*ast.Ident); !isID {
+				return true
+			}
+		}
+		s, isC := core.ConstString(info, e)
+		if !isC {
+			return true
+		}
+		n++
+		if loneImport.MatchString(s) {
+			bad = s
+		}
+		return true
+	})
+	r.Check(bad == "", rule, ip, "imports are written as one parenthesised declaration", ip.Node().Pos(), "no constant of the printer spells `import <spec>` outside the block",
+		"the import printer can write a lone import line ("+strconvQuote(strings.TrimSpace(bad))+"): next to a lone import rendered by a generator, gofumpt joins the two into one declaration that is neither grouped nor sorted - the file on disk is not a fixed point of gofmt/gofumpt")
 }
 
 func c01R1(p *core.Program, r *core.Report, w *core.Func, parse *ast.CallExpr, fileV, fsetV *types.Var) {
